@@ -427,9 +427,9 @@ func (s *streamGRPC) RecvMsg(m interface{}) error {
 			bufPool.Put(buf)
 			return err
 		}
-		if buf.Len() > s.opts.maxReceiveMessageSize {
+		if n := buf.Len(); n > s.opts.maxReceiveMessageSize {
 			bufPool.Put(buf)
-			return fmt.Errorf("grpc: received message after decompression larger than max (%d vs. %d)", buf.Len(), s.opts.maxReceiveMessageSize)
+			return fmt.Errorf("grpc: received message after decompression larger than max (%d vs. %d)", n, s.opts.maxReceiveMessageSize)
 		}
 		size = uint32(buf.Len())
 		if int(size) > cap(b) {
